@@ -9,8 +9,9 @@ INFO = dict(
     "must fail when the largest buffer is shrunk by one where the bound is tight (counted, not required); dynamic: rollouts with auto / user sizes / padding from step 0 and from a late step, every window payload compared "
     "with the producer's recorded output (or its default output). Non-trivial: rate ratio != 1 and window >= 2, or the equal-rate family",
     trusted=["Lean: ring safety for the extracted slot kernels seq % size; refinement of the replay's ring to 'the message with that sequence number' for every history of consecutive writes, any size, any first "
-             "sequence number (C08_ring_reads_live_message / _stale_not_read / _default_until_full, C08_replay_read_live; hypothesis 'consecutive writes' decided per instance by the driver)",
-             "get_buffer_sizes is validated per instance, not proved in general"],
+             "sequence number (C08_ring_reads_live_message / _stale_not_read / _default_until_full, C08_replay_read_live; hypothesis 'consecutive writes' decided per instance by the driver); model of Timings.get_buffer_sizes (Compiled/BufSize.lean) with "
+             "C08_computed_size_bounds_live / C08_sized_ring_reads_scheduled / C08_sized_ring_keeps_default, compared with the implementation's sizes on every instance (sched.bufsize)",
+             "the masking / reshaping glue of get_buffer_sizes (numpy masked arrays) is covered by the per-instance comparison, not by the model"],
     assumptions=["when execution starts at partition k > 0 a producer that has not run since the start provides its default output (documented for only_init)"],
 )
 
@@ -46,6 +47,49 @@ def run(ctx):
                 sz[big] -= 1
                 cmds.append(dict(cmd="sched.replay", sizes=sz, start=0, **it["inst"]))
                 meta.append((t, r, it, "shrunk", sz, 0, False))
+    # model of get_buffer_sizes on the grid of every instance, compared with Timings.get_buffer_sizes
+    I32MAX, I32MIN = 2147483647, -2147483648
+    bcmds, bmeta = [], []
+    for ti, (t, r) in enumerate(good):
+        if r.get("skipped"):
+            continue
+        names = [n["name"] for n in r["spec"]["nodes"]]
+        for it in r["instances"]:
+            inst = it["inst"]
+            G = inst["gens"]
+            N = inst["parts"] * G
+            mins, maxs = {}, {k: [I32MIN] * N for k in range(len(names))}
+            for c in inst["cells"]:
+                if not c["run"]:
+                    continue
+                pos = c["part"] * G + c["gen"]
+                maxs[c["kind"]][pos] = max(maxs[c["kind"]][pos], c["seq"])
+                for w in c["wins"]:
+                    arr = mins.setdefault((c["kind"], w[0]), [I32MAX] * N)
+                    arr[pos] = min([arr[pos]] + list(w[1]))
+            keys = sorted(mins)
+            if keys:
+                bcmds.append(dict(cmd="sched.bufsize", pairs=[dict(min_in=mins[k], max_out=maxs[k[1]]) for k in keys]))
+                bmeta.append((ti, it["mode"], it["prune"], keys, names, it["raw_sizes"], t, r))
+    bouts = ac.run_driver_parallel(bcmds) if (ctx.driver is not None and bcmds) else []
+    agg = {}
+    for (ti, mode, prune, keys, names, raw, t, r), o in zip(bmeta, bouts):
+        if "error" in o:
+            res.corr_diff("sched.bufsize", f"driver error {o['error']}", dict(task=t))
+            continue
+        a = agg.setdefault((ti, mode, prune), dict(sizes={}, names=names, raw=raw, t=t, r=r))
+        for k, v in zip(keys, o["sizes"]):
+            a["sizes"][k] = max(a["sizes"].get(k, v), v)
+    for (ti, mode, prune), a in agg.items():
+        res.evaluations += 1
+        res.count("bufsize_instances_compared")
+        for pk, pname in enumerate(a["names"]):
+            mine = sorted(v for (c, o_), v in a["sizes"].items() if o_ == pk)
+            theirs = sorted(int(x) for x in a["raw"].get(pname, []))
+            if mine != theirs:
+                res.corr_diff("sched.bufsize", f"seed={a['t']['args']['seed']} ({a['t']['args']['spec_kind']}) {mode} prune={prune}: Timings.get_buffer_sizes gives {theirs} for the readers of {pname}, "
+                              f"the model of the computation (Compiled/BufSize.lean) gives {mine}", dict(task=a["t"], spec=a["r"]["spec"], mode=mode, prune=prune, producer=pname))
+                break
     outs = ac.run_driver_parallel(cmds) if (ctx.driver is not None and cmds) else []
     for (t, r, it, label, sz, start, must), o in zip(meta, outs):
         res.evaluations += 1
